@@ -16,4 +16,6 @@ def run(rep, fb, tier):
 EXTRAS = [
     lambda rep, fb, tier: st.rule_axis(rep, fb, methods=("combinations",), floor=30),
     lambda rep, fb, tier: kernels.rule_kernel_siblings(rep, fb),
+    lambda rep, fb, tier: __import__("vf.rules.lints", fromlist=["x"]).rule_sibling_sizing(rep, fb),
+    lambda rep, fb, tier: __import__("vf.rules.lints", fromlist=["x"]).rule_rebuilt_simplified(rep, fb),
 ]
